@@ -151,6 +151,9 @@ def seeded_order(items: list, seed: int) -> list:
 # ------------------------------------------------------------------------------------------
 # evidence / replays
 def write_evidence(prop: str, tier: str, seed: int, res: Result, wall: float, nviol: int, extra: dict | None = None):
+    if os.environ.get("VF_NO_EVIDENCE"):
+        # runs against a deliberately broken tree (tools/seeded_eval.py) must not overwrite evidence
+        return os.path.join(ROOT, "evidence", f"{prop}.json")
     os.makedirs(os.path.join(ROOT, "evidence"), exist_ok=True)
     cov = dict(res.coverage)
     if extra:
